@@ -153,6 +153,7 @@ def run(rep):
                       "feat": {"form": "blank", "rewrite": "empty", "detail": t.strip()[:12]}, "class_fn": cls, "nontrivial": True})
     forms.replay(rep, items, "c16.gen")
     variable_case(rep, rng, 400 if quick else 20000)
+    text_around(rep, rng, [it for pool in pools for it in pool], 400 if quick else 6000)
     # impl -> spec: the same rewritings with fresh random choices, validated by TLC
     titems = []
     allp = [it for pool in pools for it in pool if it["expected"]["k"] != "unspec"]
@@ -168,6 +169,50 @@ def run(rep):
         v["class_fn"] = cls
         titems.append(v)
     forms.trace(rep, titems, "c16.rand")
+
+
+# words that mean nothing to the calculator, most of them in characters of several bytes
+FILLER = ["日本語の予定", "überprüfung größe", "şükür çağrı ölçüm", "ΑΒΓΔΕΖΗΘ λόγος", "примечание к строке", "🙂🙂🙂🙂 🎉🎉", "naïve café déjà", "plain words here", "日本語の予定 日本語の予定 日本語"]
+
+
+def text_around(rep, rng, pool, n):
+    """C16 speaks about every line, also one with free text around the phrase: `<words> 12 march 2021` evaluates to whatever it
+    evaluates to, and widening its gaps or appending a comment must not change that.  No expectation from the model is needed: the
+    line with the rewriting is compared with the same line without it (both observed); lines that are errors are left out."""
+    import proj
+    from vlib import run_harness_stable_day
+    pick = rng.sample(pool, min(n, len(pool)))
+    cases, metas = [], []
+    for i, it in enumerate(pick):
+        f = FILLER[i % len(FILLER)]
+        base = [f + " " + it["text"], it["text"] + " " + f, f + " " + it["text"] + " " + f][i % 3]
+        if "#" in base:
+            continue
+        vs = [base, widen(base, rng)] + [base + rng.choice([" ", "  ", ""]) + "# " + c for c in (COMMENTS[i % len(COMMENTS)], f, "x")]
+        cases.append({"id": "ta%d" % i, "cfg": it["cfg"], "steps": [{"op": "execute", "lang": it.get("lang", "en"), "text": v} for v in vs]})
+        metas.append((it, vs))
+    obs = run_harness_stable_day(cases, "c16.around", jobs=8)
+    keys = ("k", "f", "cur", "u", "out", "d", "s", "day", "sod", "off", "zone")
+    for (it, vs), case, o in zip(metas, cases, obs):
+        steps = o.get("steps") or []
+        sl = []
+        for k in range(len(vs)):
+            ss = proj.slots_of_step(steps[k]) if k < len(steps) else None
+            sl.append(ss[1][0] if ss and ss[0] is True and len(ss[1]) == 1 else None)
+        b = sl[0]
+        if b is None or b.get("k") in ("err", "empty"):
+            continue          # the line has no value: nothing to preserve
+        rep.case(["around", vs[0]], True)
+        rep.replayed += 1
+        for k in range(1, len(vs)):
+            s_ = sl[k]
+            if s_ is None or any(s_.get(x) != b.get(x) for x in keys):
+                rep.violation({"check": "replay", "form": "text_around", "text": vs[k], "base_text": vs[0], "cfg": it["cfg"], "expected": b, "observed": s_ if s_ is not None else (steps[k] if k < len(steps) else o),
+                               "feat": {"form": it["line"]["form"], "rewrite": "blanks" if k == 1 else "comment", "detail": "text around", "failure": "differs_from_uncommented"},
+                               "class": "differs|text_around|%s|%s" % (it["line"]["form"], "blanks" if k == 1 else "comment")})
+                break
+    if metas:
+        rep.sample({"text_around": metas[0][1]})
 
 
 def variable_case(rep, rng, n):
